@@ -40,7 +40,7 @@ def text_value(rng):
         return rng.choice(["line one\n      line two\n   three", "para one\n\n   para two", "a\n   \n\n  b\n c", "x\r\n  y\r\n\r\nz",
                            "\tfirst\n\t\n\tlast", "1\n2", "head\n\n\n\ntail"])
     if m == 4:
-        return rng.choice(["on:off", "xs:thing", "n:1", "a < b", "x & y", "xs:", "key: value"])
+        return rng.choice(["on:off", "xs:thing", "n:1", "a < b", "x & y", "xs:", "key: value", "/xs:schema/xs:element", "kg/n:3 per on:x", "a/None:b", "(xs:int) >xs:y", "=on:1 ,n:2"])
     if m == 5:
         if rng.random() < 0.5:
             # one long line (well beyond any plausible line width), words separated by single blanks
@@ -55,7 +55,7 @@ def gen_elem(rng, depth, budget):
     tag = rng.choice(TAGS)
     e = {"tag": tag, "attrs": {}, "text": None, "children": []}
     for _ in range(rng.randrange(0, 3)):
-        e["attrs"][rng.choice(["id", "name", "unit", "flag", "v"])] = rng.choice(["1", "x", "", "true", "a b", "2.5", "xs:int", "n:0", "none", "NULL", "null", "off", " None "])
+        e["attrs"][rng.choice(["id", "name", "unit", "flag", "v"])] = rng.choice(["1", "x", "", "true", "a b", "2.5", "xs:int", "n:0", "none", "NULL", "null", "off", " None ", "/xs:a/on:b", "p/n:q"])
     if depth < 4 and budget[0] > 0 and rng.random() < 0.5:
         for _ in range(rng.randrange(1, 4)):
             if budget[0] <= 0:
@@ -270,7 +270,7 @@ def xml_leaf(rng):
     if m == 2:
         return rng.choice([True, False])
     if m == 3:
-        return rng.choice(["on:off", "xs:thing", "a < b", "x & y", "n:1"])
+        return rng.choice(["on:off", "xs:thing", "a < b", "x & y", "n:1", "/xs:schema/xs:element", "m/xs:3", "a/None:b", ">xs:y", "\"xs:q"])
     if m == 4:
         return [1, 2.5, "w"]
     return rng.choice(["plain", "two words", "äö 日本", "C:/path/x", "O'Brien", 'say "hi" now', "3\" pipe", "it's {a}; (b)", "'quoted'"])
